@@ -96,7 +96,8 @@ class P:
         raise TErr("unexpected token %s" % (k,))
 
 BOOL_OPS = {"<": "<?", "<=": "<=?", ">": ">?", ">=": ">=?", "==": "=?", "!=": None}
-CALLS = {"__builtin_clzll": "clzll", "ceil_log2": "ceil_log2", "std::min": "Z.min", "std::max": "Z.max"}
+CALLS = {"__builtin_clzll": "clzll", "ceil_log2": "ceil_log2", "std::min": "Z.min", "std::max": "Z.max",
+         "PGM_SUB_EPS": "PGM_SUB_EPS", "PGM_ADD_EPS": "PGM_ADD_EPS"}
 
 def coq(e, as_bool=False):
     k = e[0]
@@ -134,6 +135,7 @@ def coq(e, as_bool=False):
     raise TErr("cannot translate %s" % (e,))
 
 def translate(src, sizeof_env=None):
+    src = re.sub(r"std::(min|max)<\s*\w+\s*>", r"std::\1", src)        # std::min<size_t>(a, b) -> std::min(a, b)
     p = P(tokenize(src), sizeof_env or {})
     e = p.expr(0)
     if p.peek()[0] != "eof": raise TErr("trailing tokens in: " + src)
@@ -175,6 +177,25 @@ def main(outpath):
     e = grab(V, r"static constexpr size_t linear_search_threshold = ([^;]*);", "Compressed linear_search_threshold")
     L.append("(* pgm_index_variants.hpp: linear_search_threshold = %s *)" % e)
     L.append("Definition compressed_linear_search_threshold (sizeof_K : Z) : Z := %s." % translate(e, {"K": ("var", "sizeof_K")}))
+    # the window / range expressions of segment_for_key and search (pgm_index.hpp) and of the C wrapper (cpgm.cpp)
+    e = grab(I, r"auto lo = level_begin \+ ([^;]*);", "routing window lo")
+    L.append("(* pgm_index.hpp segment_for_key: lo = level_begin + %s *)" % e)
+    L.append("Definition pgm_route_lo (pos EpsilonRecursive : Z) : Z := %s." % translate(e))
+    e = grab(I, r"auto hi = level_begin \+ ([^;]*);", "routing window hi")
+    L.append("(* pgm_index.hpp segment_for_key: hi = level_begin + %s *)" % e)
+    L.append("Definition pgm_route_hi (pos EpsilonRecursive level_size : Z) : Z := %s." % translate(e))
+    body = grab(I, r"ApproxPos search\(const K &key\) const \{(.*?)\n    \}", "PGMIndex::search body")
+    m1 = re.search(r"auto lo = ([^;]*);", body); m2 = re.search(r"auto hi = ([^;]*);", body)
+    if not (m1 and m2): raise TErr("PGMIndex::search: lo/hi not found")
+    L.append("(* pgm_index.hpp search: lo = %s ; hi = %s *)" % (m1.group(1), m2.group(1)))
+    L.append("Definition pgm_search_lo (pos Epsilon : Z) : Z := %s." % translate(m1.group(1)))
+    L.append("Definition pgm_search_hi (pos Epsilon n : Z) : Z := %s." % translate(m2.group(1)))
+    body = grab("c-interface/cpgm.cpp", r"approx_pos_t search\(const K &key\) const \{(.*?)\n    \}", "PGMWrapper::search body")
+    m1 = re.search(r"auto lo = ([^;]*);", body); m2 = re.search(r"auto hi = ([^;]*);", body)
+    if not (m1 and m2): raise TErr("PGMWrapper::search: lo/hi not found")
+    L.append("(* cpgm.cpp PGMWrapper::search: lo = %s ; hi = %s *)" % (m1.group(1), m2.group(1)))
+    L.append("Definition c_search_lo (pos epsilon : Z) : Z := %s." % translate(m1.group(1)))
+    L.append("Definition c_search_hi (pos epsilon n : Z) : Z := %s." % translate(m2.group(1).replace("this->n", "n")))
     e = grab(V, r"static constexpr auto miss_threshold = ([^;]*);", "miss_threshold")
     L.append("Definition miss_threshold : Z := %s." % translate(e))
     e = grab(S, r"if \(parallelism == 1 \|\| n < ([^)]*)\)", "chunk threshold")
